@@ -840,6 +840,10 @@ class MutableDict(Mutable, Dict[_KT, _VT]):
         dict.update(self, *a, **kw)
         self.changed()
 
+    def __ior__(self, other: Any) -> MutableDict[_KT, _VT]:  # type: ignore[override,misc] # noqa: E501
+        self.update(other)
+        return self
+
     if TYPE_CHECKING:
 
         @overload
@@ -947,6 +951,11 @@ class MutableList(Mutable, List[_T]):
 
     def __iadd__(self, x: Iterable[_T]) -> MutableList[_T]:  # type: ignore[override,misc] # noqa: E501
         self.extend(x)
+        return self
+
+    def __imul__(self, n: SupportsIndex) -> MutableList[_T]:  # type: ignore[override,misc] # noqa: E501
+        list.__imul__(self, n)
+        self.changed()
         return self
 
     def insert(self, i: SupportsIndex, x: _T) -> None:
